@@ -218,6 +218,12 @@ func (d *Driver) handleCallbacks(
 
 		return d.executeCallback(r.i, r.callbacks, r.b, r.fb, timeout)
 	case <-ctx.Done():
+		// don't return before the read goroutine is gone (it notices the expired context on its next
+		// iteration and closes c), otherwise it may still take one more chunk off the channel after
+		// we have returned -- a chunk that belongs to whatever the caller does next
+		for range c { //nolint:revive
+		}
+
 		return nil, fmt.Errorf("%w: timeout handling callbacks", util.ErrTimeoutError)
 	}
 }
